@@ -4,12 +4,16 @@ package main
 
 import (
 	"fmt"
+	"strings"
 
 	"bfeverif/harness/cmd/c07/sim"
 	"bfeverif/harness/internal/vh"
 )
 
 func gen(r *vh.Rand) string {
+	if r.Chance(1, 20) {
+		return sim.GenTransport(r) // through the real bfe_http.Transport (third op stream)
+	}
 	k := sim.Knobs{MaxReqs: 1, Interleave: false, FinishPct: 3, ErrPct: 80}
 	if r.Chance(1, 8) {
 		k.MaxReqs = 2
@@ -48,5 +52,10 @@ func pre(emit func(op string), thorough bool) {
 
 func main() {
 	vh.Pre = pre
-	vh.Main(gen, sim.Exec)
+	vh.Main(gen, func(op string) string {
+		if strings.HasPrefix(op, "tr/") {
+			return sim.ExecTransport(op)
+		}
+		return sim.Exec(op)
+	})
 }
